@@ -566,12 +566,17 @@ static std::string run_case(const Case &c, double limit_s)
 		std::vector<int> hs; for (int i = 0; i < c.n; i++) { bool ok = true; for (int s = 0; s <= last; s++) if (!c.dev[s][i].honest()) ok = false; if (ok) hs.push_back(i); }
 		return ivec(hs);
 	};
+	std::string crash0;
+	for (int i = 0; i < c.n; i++)
+		if (!WIFEXITED(status[i]) || WEXITSTATUS(status[i]) != 0) crash0 += " crash:P" + std::to_string(i) + ":" + std::to_string(status[i]);
+	if (hang) crash0 += " hang";
 	std::string crash;
-	for (int i = 0; i < c.n; i++) {
-		if (!WIFEXITED(status[i]) || WEXITSTATUS(status[i]) != 0) crash += " crash:P" + std::to_string(i) + ":" + std::to_string(status[i]);
-		if (find(i, "exc")) crash += " exc:P" + std::to_string(i) + ":" + get(find(i, "exc"), "step") + ":" + get(find(i, "exc"), "what");
-	}
-	if (hang) crash += " hang";
+	// a C++ exception that left a library call is reported on the lines of that call
+	auto set_crash = [&](const std::string &step) {
+		crash = crash0;
+		for (int i = 0; i < c.n; i++) if (find(i, "exc") && get(find(i, "exc"), "step") == step)
+			crash += " exc:P" + std::to_string(i) + ":" + step + ":" + get(find(i, "exc"), "what");
+	};
 	std::string lines;
 	auto add = [&](const std::string &l) { if (!lines.empty()) lines += "\n"; lines += l; };
 	// DSS keeps copies of x_i, x'_i, y, QUAL: report those (they are what Sign uses)
@@ -580,6 +585,7 @@ static std::string run_case(const Case &c, double limit_s)
 	auto KQ = [&]() { return std::string(dssk ? "dQ" : "QUAL"); };
 	// ---- Generate
 	{
+		set_crash("gen");
 		std::string in, out, prop;
 		for (int i = 0; i < c.n; i++) {
 			const KV *s = find(i, "gen"), *d = dead_in(i, "gen");
@@ -596,6 +602,7 @@ static std::string run_case(const Case &c, double limit_s)
 	int ref_step = (c.kind == K_GEN) ? 1 : 2;
 	bool have_ref = (c.kind == K_GEN) || c.nsteps >= 3;
 	if (have_ref) {
+		set_crash("ref");
 		std::string in, out, prop;
 		for (int i = 0; i < c.n; i++) {
 			const KV *s0 = find(i, "gen"), *s = find(i, "ref"), *d = dead_in(i, "ref");
@@ -618,6 +625,7 @@ static std::string run_case(const Case &c, double limit_s)
 			int step = (sn == 1) ? 1 : 3;
 			if (c.nsteps <= step) continue;
 			std::string prop; std::string head = (sn == 1) ? "sg1" : "sg2";
+			set_crash(head);
 			for (int i = 0; i < c.n; i++) {
 				const KV *s0 = find(i, "gen"), *sr = find(i, "ref"), *sg = find(i, head);
 				if (sn == 2 && !c.in_sub(i)) { prop += " P" + std::to_string(i) + ":."; continue; }
